@@ -24,7 +24,8 @@ THEOREMS = ['C15.quotes_table_ok', 'C15.bool_table_ok', 'C15.lists_table_ok', 'C
             'C15.follow_general', 'C15.fresh_child_inherits', 'C15.reset_network_follows', 'C15.file_always_loads',
             'C15.string_variants_roundtrip', 'C15.name_unescape_escape', 'C15.name_escape_roundtrip_partial',
             'C15.name_escape_counterexample', 'C15.reset_channel_follows', 'C15.source_constants_ok',
-            'C15.socket_timeout_verdict', 'C15.socket_timeout_reject_atomic']
+            'C15.socket_timeout_verdict', 'C15.socket_timeout_reject_atomic',
+            'C15.save_load_roundtrip', 'C15.save_load_counterexample', 'C15.rt_string', 'C15.rt_bool', 'C15.rt_int']
 TRUSTED = ['Lean 4.33.0 kernel; axioms ⊆ {propext, Classical.choice, Quot.sound}',
            'harness/extractors/registry.py (constants of src/registry.py, utils/str.py, class inventory → Gen/Registry.lean)',
            'harness/c15.py generators + canonicalisation; hex line protocol',
